@@ -6,8 +6,8 @@ import structgen
 ID = "C06"
 REQUIRES = ["Agree", "StructSpec", "C06Spec", "Truth"]
 THEOREM_REQUIRES = ["C06"]
-THEOREMS = ["C06_holds_fields", "C06_holds_fields_kf", "C06_refuted", "C06_leaf_table"]
-PROOF_FILES = ["Proofs/GenInv.v", "Proofs/TypeDfs.v", "Proofs/StructProof.v", "Proofs/C06Proof.v", "Properties/C06.v"]
+THEOREMS = ["C06_holds", "C06_holds_fields", "C06_holds_fields_kf", "C06_holds_named", "C06_refuted", "C06_leaf_table"]
+PROOF_FILES = ["Proofs/GenInv.v", "Proofs/TypeDfs.v", "Proofs/StructProof.v", "Proofs/C06Proof.v", "Proofs/C06Named.v", "Properties/C06.v"]
 RULE = ("the struct programs of C05/C08/C09 (incl. f64 scalars/vectors/matrices, all 9 matrix shapes, arrays of arrays, "
         "arrays of structs, nested structs, atomics, trailing runtime arrays) x Rust / Glam / Nalgebra; plus the leaf "
         "table enumerated exhaustively (every scalar kind x vec2-4, every matCxR in f32/f64) as single-member structs; "
@@ -16,8 +16,8 @@ RULE = ("the struct programs of C05/C08/C09 (incl. f64 scalars/vectors/matrices,
 ASSUMPTIONS = ["denote (what a Rust type means: arrays outer-first, glam::MatN = N columns of N, nalgebra SMatrix<T,R,C> "
                "column-major) is the specification's reading of the Rust types; type_name / byte placement of the "
                "compiled structs is observed in the compiled batch",
-               "the part 'nested structs refer to an emitted struct of the same name' (C06_named_ok) is checked on every "
-               "real output but not yet proved for the model (C06 theorem covers the fields part: partial)"]
+               "premise wf_io_structs (a struct emitted only as an entry-point parameter has no struct-typed member: a "
+               "WGSL rule naga's validator enforces) is evaluated on every case as part of the wf flag"]
 
 
 def leaf_cases():
@@ -54,10 +54,10 @@ def verdict_expr(c, r, ir, real):
     t = "[" + "; ".join("(%s, [%s])" % (coq_string(s["name"]), "; ".join("(%s, %s)" % (coq_string(n), sh) for n, sh in s["members"]))
                         for s in c["truth"]) + "]"
     o = coq_options(c["opts"])
-    return ('[wf %s; agree_res agree_C06 (gen %s ""%%string None %s) %s; '
+    return ('[wf %s && wf_io_structs %s; agree_res agree_C06 (gen %s ""%%string None %s) %s; '
             'match %s with Ok o => C06_ok %s %s o && truth_shapes_ok o %s | Panic _ => %s | _ => false end; '
             'match %s with Ok o => C06_ok_kf %s %s o && kf_nonsquare %s %s | _ => false end]'
-            % (ir, ir, o, real, real, ir, o, t, "true" if c["needs_encase"] else "false", real, ir, o, ir, o))
+            % (ir, ir, ir, o, real, real, ir, o, t, "true" if c["needs_encase"] else "false", real, ir, o, ir, o))
 
 
 def nontrivial(c, r):
